@@ -60,7 +60,11 @@ VARIANTS = {
                              "-fno-sanitize=object-size"], ["-fsanitize=undefined"]),
     "native": ("clang++-14", ["-O2", "-gline-tables-only"], []),
     "gnative": ("g++-12", ["-O2", "-g1"], []),
+    # plain gcc build run under valgrind memcheck (uninitialised-value use, which ASan/UBSan do not see; MSan is unusable here)
+    "memcheck": ("g++-12", ["-O1", "-g"], []),
 }
+MEMCHECK_CMD = ["valgrind", "--tool=memcheck", "-q", "--error-exitcode=97", "--exit-on-first-error=yes",
+                "--num-callers=24", "--leak-check=no", "--undef-value-errors=yes"]
 
 SAN_ENV = {
     "ASAN_OPTIONS": "abort_on_error=1:detect_leaks=0:allocator_may_return_null=1:detect_stack_use_after_return=0:"
@@ -164,6 +168,19 @@ def _strip_templates(s):
     return s
 
 
+_GUDHI_HEADERS = None
+
+
+def _is_gudhi_header(basename):
+    global _GUDHI_HEADERS
+    if _GUDHI_HEADERS is None:
+        _GUDHI_HEADERS = set()
+        for root, _, files in os.walk(os.path.join(REPO, "src")):
+            if "/include" in root:
+                _GUDHI_HEADERS.update(files)
+    return basename in _GUDHI_HEADERS
+
+
 def sanitizer_signature(stderr_text):
     """Stable classification of a sanitizer / crash report: kind @ first frame inside the repo (file:function)."""
     kind = "crash"
@@ -189,7 +206,20 @@ def sanitizer_signature(stderr_text):
                     if m:
                         kind = "terminate:" + m.group(1)
     frame = ""
+    mv = re.search(r"^==\d+== ([A-Z][^\n]*)", stderr_text, re.M)
+    if mv and kind == "crash":   # valgrind memcheck report: "==pid== Conditional jump or move depends on uninitialised value(s)"
+        msg = re.sub(r"0x[0-9A-Fa-f]+", "ADDR", mv.group(1))
+        kind = "Memcheck:" + re.sub(r"\d+", "N", msg).strip()[:100]
+        for line in stderr_text.splitlines():
+            m = re.match(r"==\d+==\s+(?:at|by) 0x[0-9A-F]+: (.*) \((\S+?\.h):\d+\)", line)
+            if m and _is_gudhi_header(m.group(2)):
+                fn = _strip_templates(m.group(1))
+                fn = fn.split("(")[0].strip().split("::")[-1].strip()
+                frame = m.group(2) + ":" + fn
+                break
     for line in stderr_text.splitlines():
+        if frame:
+            break
         m = re.match(r"\s*#\d+ 0x[0-9a-f]+ in (.*?) (/\S+?):(\d+)", line)
         if m and ("/src/" in m.group(2) and "/include/gudhi" in m.group(2)):
             fn = _strip_templates(m.group(1))
@@ -237,6 +267,8 @@ def run_shard(binpath, config, seed, a, b, tier, workdir, timeout, variant, unit
                 os.remove(p)
         cmd = [binpath, "--config", config, "--seed", str(seed), "--from", str(cur), "--to", str(b), "--tier", tier,
                "--out", out]
+        if variant == "memcheck":
+            cmd = MEMCHECK_CMD + cmd
         timed_out = False
         with open(err, "wb") as ef:
             try:
@@ -281,7 +313,8 @@ def run_shard(binpath, config, seed, a, b, tier, workdir, timeout, variant, unit
                                 "history": hist, "stderr": errtxt[-4000:]})
         else:
             sig = sanitizer_signature(errtxt)
-            chk = "sanitizer" if ("Sanitizer" in errtxt or "runtime error" in errtxt) else "crash"
+            chk = "sanitizer" if ("Sanitizer" in errtxt or "runtime error" in errtxt or
+                                  re.search(r"^==\d+== \S", errtxt, re.M)) else "crash"
             res["viol"].append({"kind": chk, "config": config, "case": last_b, "check": chk, "sig": sig,
                                 "detail": "process died rc=%s" % rc, "history": hist, "stderr": errtxt[-8000:]})
         # partial counters of the dead process are lost; count its completed cases
@@ -336,6 +369,8 @@ def run_check(prop, tier, seed, replay=None, only_unit=None, only_config=None, s
         env.update(SAN_ENV)
         cmd = [unit_bin(spec, units[0]), "--config", rp["config"], "--seed", str(rp["seed"]), "--from", str(rp["case"]),
                "--to", str(rp["case"] + 1), "--tier", rp["tier"], "--verbose", "--out", "/dev/stdout"]
+        if units[0].get("variant") == "memcheck":
+            cmd = MEMCHECK_CMD + cmd
         log("[replay] " + " ".join(cmd))
         return subprocess.call(cmd, env=env)
 
